@@ -14,7 +14,16 @@ use std::sync::atomic::{AtomicBool, AtomicU64, Ordering};
 use std::sync::Mutex;
 use std::time::Instant;
 
-pub const VERIF: &str = "/verif";
+/// Root of the verification tree (`/verif`; `VERIF_ROOT` overrides it for scratch copies used in sensitivity runs).
+pub fn verif_root() -> &'static str {
+    static R: std::sync::OnceLock<String> = std::sync::OnceLock::new();
+    R.get_or_init(|| std::env::var("VERIF_ROOT").ok().filter(|s| !s.is_empty()).unwrap_or_else(|| "/verif".to_string()))
+}
+/// Root of the repository under test (`/repo`; `VERIF_REPO` overrides it for scratch worktrees used in sensitivity runs).
+pub fn repo_root() -> &'static str {
+    static R: std::sync::OnceLock<String> = std::sync::OnceLock::new();
+    R.get_or_init(|| std::env::var("VERIF_REPO").ok().filter(|s| !s.is_empty()).unwrap_or_else(|| "/repo".to_string()))
+}
 
 #[derive(Clone, Copy, PartialEq, Eq, Debug)]
 pub enum Tier {
@@ -244,7 +253,7 @@ fn start_watchdog(prop: &'static str) {
             }
         }
         if let Some(input) = hung {
-            let dir = format!("{}/replays/{}", VERIF, prop);
+            let dir = format!("{}/replays/{}", verif_root(), prop);
             let _ = std::fs::create_dir_all(&dir);
             let path = format!("{}/hang-{:016x}.json", dir, fnv(&input));
             let _ = std::fs::write(&path, serde_json::to_string_pretty(&json!({"property": prop, "kind": "watchdog", "input": input})).unwrap());
@@ -340,7 +349,7 @@ impl Ctx {
     }
 
     fn add_violation(&self, sub: &str, sig: &str, replay_body: Value, detail: Value) {
-        let dir = format!("{}/replays/{}", VERIF, self.prop);
+        let dir = format!("{}/replays/{}", verif_root(), self.prop);
         let _ = std::fs::create_dir_all(&dir);
         let body = json!({
             "property": self.prop,
@@ -642,7 +651,7 @@ impl Ctx {
             "wall_s": (wall * 1000.0).round() / 1000.0,
             "violations": viol.len(),
         });
-        let dir = format!("{}/evidence", VERIF);
+        let dir = format!("{}/evidence", verif_root());
         let _ = std::fs::create_dir_all(&dir);
         let path = format!("{}/{}.json", dir, self.prop);
         if let Err(e) = std::fs::write(&path, serde_json::to_string_pretty(&ev).unwrap()) {
@@ -700,7 +709,7 @@ impl Drop for SubTimer {
 }
 
 pub fn load_findings() -> Vec<Finding> {
-    let path = format!("{}/known_findings.json", VERIF);
+    let path = format!("{}/known_findings.json", verif_root());
     match std::fs::read_to_string(&path) {
         Ok(s) => serde_json::from_str(&s).unwrap_or_else(|e| {
             println!("INCONCLUSIVE cannot parse {}: {}", path, e);
